@@ -8,6 +8,7 @@ Open Scope Z_scope.
 
 (* the repairs applied to /repo so far (the model follows the CURRENT tree) *)
 Definition cur_reject_negative_limit : bool := true.    (* repo commit 0089c85 *)
+Definition cur_repeated_keys_fixed : bool := true.      (* repo commit 67e0e70 *)
 
 Fixpoint row_eqb (a b : row) : bool :=
   match a, b with
@@ -131,7 +132,8 @@ Definition e2e12_verdict (outs : list binding) (keys seen : list skey) (lim : op
   | inl _, Some _ => 2%N
   | inr _, None => 2%N
   | inr (seen_m, dups), Some o =>
-      let cfg_ok := if dups then keys_perm_b seen seen_m else keys_eqb seen keys in
+      let cfg_ok := if dups then (if cur_repeated_keys_fixed then keys_eqb seen seen_m else keys_perm_b seen seen_m)
+                    else keys_eqb seen keys in
       let c : sort_cfg := match keys with [] => None | _ => Some seen end in
       let fetched := fetch_pushdown pushdown lim base in
       let ind12 := match c with Some ks => d12 ks fetched | None => false end in
